@@ -19,8 +19,6 @@ import (
 	"net/http"
 	"os"
 	"path/filepath"
-	"runtime/pprof"
-	"strconv"
 	"time"
 
 	"verif/internal/ev"
@@ -61,22 +59,11 @@ func main() {
 	run.Mandatory(mandatoryNames...)
 
 	raceSetup(run)
-	if pf := os.Getenv("C20_DEV_PROF"); pf != "" {
-		f, _ := os.Create(pf)
-		_ = pprof.StartCPUProfile(f)
-		defer pprof.StopCPUProfile()
-	}
 
 	pp, cp, pt := isoCounts(run)
-	nIso := pp + cp + pt + run.N(90, 1500)
-	nRounds := run.N(5, 40)
+	nIso := pp + cp + pt + run.N(90, 1200)
+	nRounds := run.N(5, 30)
 
-	if v, err := strconv.Atoi(os.Getenv("C20_DEV_ISO")); err == nil {
-		nIso = v
-	}
-	if v, err := strconv.Atoi(os.Getenv("C20_DEV_ROUNDS")); err == nil {
-		nRounds = v
-	}
 	if rc := run.ReplayCase(); rc >= 0 {
 		writeInflight(run, int(rc))
 		if rc >= roundBase {
@@ -107,8 +94,7 @@ func main() {
 	t0 = time.Now()
 	mux.Reset()
 	restoreGlobals()
-	r0, _ := strconv.Atoi(os.Getenv("C20_DEV_ROUND_FROM"))
-	for r := r0; r < r0+nRounds; r++ {
+	for r := 0; r < nRounds; r++ {
 		writeInflight(run, roundBase+r)
 		runRound(run, r)
 		restoreGlobals()
@@ -117,6 +103,5 @@ func main() {
 	raceCollect(run, false)
 	_ = os.Remove(filepath.Join(ev.Out, "replay", "C20.inflight.json"))
 	fmt.Printf("C20: %d isolation scenarios, %d concurrent rounds\n", nIso, nRounds)
-	pprof.StopCPUProfile()
 	run.Finish()
 }
